@@ -182,3 +182,7 @@ end Memc
 #print axioms Memc.C07_non_numeric
 #print axioms Memc.C07_create
 #print axioms Memc.C07_no_create
+#print axioms Memc.evictLoop_casId
+#print axioms Memc.policy_set_cas0
+#print axioms Memc.C07_create_under_policy
+#print axioms Memc.C07_update_under_policy
